@@ -426,6 +426,8 @@ fn poison(t: &mut Tape, prog: &mut Prog) -> String {
                 "}/*", "pub const X: u32;", "fn f();", "impl Q { fn g(); }", "pub static S: u8;", "type A;", "/*", "*/", "'", "\"", "r#\"", "{", ")",
                 "macro_rules! m { () => {} }", "#![no_std]", "pub trait Tr { const C: u32; fn f(); }", "mod inner;", "use super::*;", "\\", "\u{0}", "pub struct;",
                 "extern \"C\" { fn h(); static Z: u8; type Opaque; }", "pub fn ok() {}", "enum E {}", "union U { a: u8 }", "const _: () = ();",
+                // token trees syn does not look into but the pretty-printer does
+                "macro_rules! m ( x );", "macro_rules! m { () => {} x }", "macro_rules! m { (a) = > {} }", "macro_rules! m { }", "macro m() {}", "macro_rules! m { ($x:expr) => { $x } ; ; }",
                 // a syntax error far to the right of multi-byte text on the same line (the error report quotes the line)
                 "pub const GREETING: &str = \"こんにちは世界、これは長い日本語のテキストです。もっと長く、もっと長く\"; pub fn answer(-> u32) { 42 }",
                 "/* ääääääääääääääääääääääääääääääääääääääääääääääääääääääääääääääääääääääää */ pub fn f( { }",
@@ -622,7 +624,7 @@ fn rename_collision_prog(t: &mut Tape) -> Prog {
                     funcs.push(mk(nme, Some(addr)));
                 }
             }
-            m.impls.push(Impl { ty: name, funcs });
+            m.impls.push(Impl { more: vec![], ty: name, funcs });
         }
     }
     Prog { mods: vec![m] }
